@@ -124,6 +124,10 @@ def main():
                 ck.violation("C20/from_cycles", "permutation_from_cycles does not yield exactly the given cycles", {"case": c, "observed": real, "expected": want})
         elif "cycle_lengths" in c and "n" in c:
             real = pu.permutations_with_cycle_lenghts(c["n"], c["cycle_lengths"])
+            if "again" in c:  # recorded history: enumerate, overwrite the answer in place, enumerate again
+                for p in real:
+                    p.reverse()
+                real = pu.permutations_with_cycle_lenghts(c["n"], c["again"])
             ck.case(["replay", c], True)
             if len({tuple(p) for p in real}) != len(real) or any(cycle_type(p) != sorted(c["cycle_lengths"]) for p in real) or len(real) != class_size(c["n"], c["cycle_lengths"]):
                 ck.violation("C20/conjugacy-class", "enumeration of the conjugacy class is wrong", {"case": c, "observed_count": len(real), "expected_count": class_size(c["n"], c["cycle_lengths"])})
@@ -232,6 +236,19 @@ def main():
             lens2 = lens[:]
             rng.shuffle(lens2)
             real = pu.permutations_with_cycle_lenghts(n, lens2)
+            if rng.random() < 0.5 and real:
+                # the caller owns what it was given: scribbling over an earlier answer must not change a later one
+                snapshot = [list(p) for p in real]
+                for p in real:
+                    p.reverse()
+                real.reverse()
+                lens3 = lens2[:]
+                rng.shuffle(lens3)
+                real = pu.permutations_with_cycle_lenghts(n, lens3)
+                ck.count("conjugacy-classes: asked again after the first answer was overwritten")
+                if sorted(map(tuple, real)) != sorted(map(tuple, snapshot)):
+                    ck.violation("C20/conjugacy-class/stale", "a second enumeration of the same class differs after the caller modified the first answer in place", {"case": {"n": n, "cycle_lengths": lens2, "again": lens3, "history": "enumerate, reverse every returned list in place, enumerate again"}, "observed_count": len(real)})
+                    continue
             ck.case(["conj", n, lens2], n >= 3)
             ck.count("conjugacy-classes")
             tset = {tuple(p) for p in real}
